@@ -50,7 +50,7 @@ void Executor::initGlobals(State &s) {
         uint64_t sz = 64;
         Type *vt = g.getValueType();
         if (vt->isSized()) sz = DL->getTypeAllocSize(vt);
-        if (g.isDeclaration() && sz < 256) sz = 256;
+        if (g.isDeclaration() && sz < 1024) sz = 1024;
         uint64_t al = g.getAlign() ? g.getAlign()->value() : 16;
         ObjP o = s.mem.alloc(sz, MemObj::GLOBAL, g.getName().str(), al);
         o->ro = g.isConstant() && !g.isDeclaration();
@@ -63,6 +63,14 @@ void Executor::initGlobals(State &s) {
     for (GlobalVariable &g : M->globals()) {
         if (!g.hasInitializer()) {
             if (g.getName() == "__libc_single_threaded") { MemObj *o = s.mem.find(gaddr[&g]); o->data[0] = 1; }
+            if (g.getName().startswith("_ZTT")) {
+                // VTT of a libstdc++.so class (iostream family, inert): every slot points into a zero-filled fake vtable,
+                // so that inlined constructor/destructor code finds virtual-base offset 0 instead of a wild pointer
+                static uint64_t fakeVt = 0;
+                if (!fakeVt) fakeVt = s.mem.alloc(1024, MemObj::GLOBAL, "fake-vtable")->base + 512;
+                MemObj *o = s.mem.find(gaddr[&g]);
+                for (uint64_t i = 0; i + 8 <= o->size; i += 8) memcpy(o->data.data() + i, &fakeVt, 8);
+            }
             continue;
         }
         MemObj *o = s.mem.find(gaddr[&g]);
@@ -73,6 +81,14 @@ void Executor::initGlobals(State &s) {
         o->ro = ro;
     }
     parseTypeInfos();
+    for (Function &f : *M) {
+        if (!f.getName().startswith("__vrt__") || f.isDeclaration()) continue;
+        std::string target = f.getName().substr(7).str();
+        bool off = false;
+        for (auto &n : opt.noReplace) if (target.find(n) != std::string::npos) off = true;
+        if (off) continue;
+        if (Function *t = M->getFunction(target)) redirect[t] = &f;
+    }
 }
 
 Val Executor::evalConst(State &s, const Constant *c) {
